@@ -12,14 +12,14 @@
 EXTENDS Storage, Json
 NameTrace == ndJsonDeserialize("c18names.ndjson")
 VARIABLES l, bad
-nvars == <<objs, res, last, hist, l, bad>>
+nvars == <<objs, res, last, hist, via, l, bad>>
 
 NInit == /\ l = 1 /\ bad = <<>>
-         /\ objs = <<>> /\ res = Res("init", TRUE, "", {}) /\ last = Op("init", "", <<>>, "", <<>>, "") /\ hist = <<>>
+         /\ objs = <<>> /\ res = Res("init", TRUE, "", {}) /\ last = Op("init", "", <<>>, "", <<>>, "") /\ hist = <<>> /\ via = 1
 NNext == /\ l <= Len(NameTrace)
          /\ l' = l + 1
          /\ bad' = IF ResolvesInside(NameTrace[l].base, NameTrace[l].name) THEN bad ELSE Append(bad, l)
-         /\ UNCHANGED <<objs, res, last, hist>>
+         /\ UNCHANGED <<objs, res, last, hist, via>>
 
 AllInside == l = Len(NameTrace) + 1 => bad = <<>>
 Accepted == TLCGet("stats").diameter = Len(NameTrace) + 1
